@@ -117,3 +117,22 @@ pub fn replay_arg() -> Option<Value> {
     let v: Value = serde_json::from_str(&txt).expect("parse replay file");
     Some(v.get("replay").cloned().unwrap_or(v))
 }
+
+/// Normalised panic message for signatures: digits -> '#', bracketed lists dropped, <= 60 chars.
+pub fn panic_sig(msg: &str) -> String {
+    let mut out = String::new();
+    let mut depth = 0;
+    let mut last_hash = false;
+    for c in msg.chars() {
+        match c {
+            '[' | '{' => { depth += 1; }
+            ']' | '}' => { if depth > 0 { depth -= 1; } }
+            _ if depth > 0 => {}
+            d if d.is_ascii_digit() => { if !last_hash { out.push('#'); last_hash = true; } continue; }
+            '\n' => out.push(' '),
+            _ => out.push(c),
+        }
+        last_hash = false;
+    }
+    out.trim().chars().take(60).collect()
+}
